@@ -213,9 +213,9 @@ def decide(label, ob, timeout_ms=20000, twin=False, max_paths=64, prove_defined=
         if verdict == "sat":
             sym = c.notes_sym
             if known:
-                # two queries per listed finding: (not prop & pred) -> finding still present;
+                # two queries per listed finding: (not prop & pred) -> the finding is (still) there;
                 # (not prop & not any pred) -> a DIFFERENT violation of the same property
-                preds = []
+                preds, sat_kids = [], []
                 for kid, pred_fn in known:
                     try:
                         pz = pred_fn(sym)
@@ -224,20 +224,36 @@ def decide(label, ob, timeout_ms=20000, twin=False, max_paths=64, prove_defined=
                     preds.append(pz)
                     v1, m1, dt1 = engine.check_valid(hyps + [pz], goal, timeout_ms)
                     out["solver_s"] += dt1
-                    if v1 == "sat" and _replays(ob, sym, hyps + [pz], goal, m1, timeout_ms) is not None:
-                        out.setdefault("known_present", []).append(kid)
-                if preds and out.get("known_present"):
-                    v2, m2, dt2 = engine.check_valid(hyps + [z3.Not(z3.Or(*preds))], goal, timeout_ms)
+                    if v1 == "sat":
+                        sat_kids.append((kid, pz, m1))
+                if preds:
+                    outside = z3.Not(z3.Or(*preds))
+                    v2, m2, dt2 = engine.check_valid(hyps + [outside], goal, timeout_ms)
                     out["solver_s"] += dt2
-                    if v2 == "unsat":
-                        out["discharged"] += 1
-                        out["status"] = "known"
-                        continue
+                    if v2 == "sat":
+                        rep2 = _replays(ob, sym, hyps + [outside], goal, m2, timeout_ms)
+                        if rep2 is not None:
+                            out.update(status="violation", kind="value", detail=rep2["summary"], replay=rep2)
+                            return out
                     if v2 == "unknown":
                         out.update(status="inconclusive", detail="solver unknown outside the known finding")
                         return out
-                    model = m2
-                    hyps = hyps + [z3.Not(z3.Or(*preds))]
+                    # every (reproducible) counterexample lies inside a listed finding's region
+                    reproduced = None
+                    for kid, pz, m1 in sat_kids:
+                        if _replays(ob, sym, hyps + [pz], goal, m1, timeout_ms) is not None:
+                            out.setdefault("known_present", []).append(kid)
+                            reproduced = True
+                    if not reproduced and sat_kids and _replays(ob, sym, hyps, goal, model, timeout_ms) is not None:
+                        out.setdefault("known_present", []).extend(k for k, _, _ in sat_kids)
+                        reproduced = True
+                    if reproduced and v2 == "unsat":
+                        out["discharged"] += 1
+                        out["status"] = "known"
+                        continue
+                    if reproduced:
+                        out.update(status="inconclusive", detail="known finding present; a model outside it did not reproduce")
+                        return out
             rep = _replays(ob, sym, hyps, goal, model, timeout_ms)
             if rep is None:
                 out.update(status="inconclusive", detail="solver model did not reproduce on concrete values")
